@@ -296,6 +296,138 @@ func vHybridRun(tr *vTrace, id string, salt int64) (hang bool) {
 	return false
 }
 
+// vHybridLateJoin: the hybrid Get's single-flight call (vgroup) is held between the end of its critical
+// section (secondary copy promoted into memory, shard released) and its removal from the group's table.
+// Meanwhile the key is deleted from both tiers (or its deadline passes). A Get that arrives now misses in
+// memory; it must look the key up again, not join the finished call (D21, C14). The held Get is not logged
+// as a call of the sequential client (its secondary read and promotion events are).
+func vHybridLateJoin(tr *vTrace, id string, salt int64) (hang bool) {
+	rnd := vRand(salt)
+	start := int64(1 + rnd.Intn(5000))
+	expiry := salt%2 == 1
+	tr.Emit(vRec{"ev": "reset", "id": id, "maxsize": 2, "pool": 0, "door": 0, "loading": 0, "mode": "hybrid",
+		"qcap": WriteChanSize, "t": start, "thresh": vThresh(20), "tick": vTickU(20), "failing": 0})
+	h, sec := vNewHybrid(tr, 2, false, start)
+	defer func() {
+		h.quiet.Store(true)
+		vDeadStores.Store(h.store, true)
+		vTimed(2*time.Second, h.store.Close)
+		SetVerifHandler(nil)
+		vRemoveClock()
+	}()
+	c := h.client("c1")
+	un := c.register()
+	defer un()
+	ttl := int64(0)
+	if expiry {
+		ttl = 900
+	}
+	for k := 1; k <= 5; k++ {
+		c.Set(k, 1, ttl)
+		if !h.settleHybrid() {
+			tr.Emit(vRec{"ev": "hang", "p": "c1", "op": "settle"})
+			return true
+		}
+	}
+	tr.Emit(vRec{"ev": "settled", "resident": h.store.Len(), "errs": sec.errCount.Load()})
+	k := 0
+	for x := 1; x <= 5 && k == 0; x++ {
+		sec.mu.Lock()
+		_, insec := sec.m[x]
+		sec.mu.Unlock()
+		_, idx := h.store.index(x)
+		sh := h.store.shards[idx]
+		tk := sh.mu.RLock()
+		_, inmem := sh.hashmap[x]
+		sh.mu.RUnlock(tk)
+		if insec && !inmem {
+			k = x
+		}
+	}
+	if k == 0 {
+		tr.Emit(vRec{"ev": "end", "stuck": 1, "skipped": 0})
+		return false
+	}
+	h.sfReached = make(chan struct{})
+	h.sfHold = make(chan struct{})
+	h.sfArm.Store(true)
+	released := false
+	release := func() {
+		if !released {
+			released = true
+			h.sfArm.Store(false)
+			close(h.sfHold)
+		}
+	}
+	defer release()
+	adone := make(chan struct{})
+	go func() {
+		a := h.client("c2")
+		una := a.register()
+		h.store.GetWithSecodary(k)
+		una()
+		close(adone)
+	}()
+	select {
+	case <-h.sfReached:
+	case <-time.After(3 * time.Second):
+		release()
+		<-adone
+		tr.Emit(vRec{"ev": "end", "stuck": 1, "skipped": 0})
+		return false
+	}
+	if expiry {
+		h.advance(1000)
+	} else {
+		tr.Emit(vRec{"ev": "call", "p": c.name, "op": "hdel", "k": k, "v": 0, "cost": 0, "ttl": 0, "t": h.nowU()})
+		err := h.store.DeleteWithSecondary(k)
+		tr.Emit(vRec{"ev": "ret", "p": c.name, "op": "hdel", "ok": vb(err == nil), "v": 0, "n": 0, "n2": 0})
+	}
+	tr.Emit(vRec{"ev": "call", "p": c.name, "op": "hget", "k": k, "v": 0, "cost": 0, "ttl": 0, "t": h.nowU()})
+	type res struct {
+		v  int
+		ok bool
+	}
+	cdone := make(chan res, 1)
+	go func() {
+		b := h.client("c3")
+		unb := b.register()
+		v, ok, _ := h.store.GetWithSecodary(k)
+		unb()
+		cdone <- res{v, ok}
+	}()
+	var r res
+	got := false
+	select {
+	case r = <-cdone:
+		got = true
+	case <-time.After(150 * time.Millisecond):
+	}
+	release()
+	if !got {
+		select {
+		case r = <-cdone:
+		case <-time.After(5 * time.Second):
+			tr.Emit(vRec{"ev": "hang", "p": "c1", "op": "hget"})
+			return true
+		}
+	}
+	tr.Emit(vRec{"ev": "ret", "p": c.name, "op": "hget", "ok": vb(r.ok), "v": r.v, "n": 0, "n2": 0})
+	select {
+	case <-adone:
+	case <-time.After(5 * time.Second):
+		tr.Emit(vRec{"ev": "hang", "p": "c1", "op": "hget"})
+		return true
+	}
+	if !h.settleHybrid() {
+		tr.Emit(vRec{"ev": "hang", "p": "c1", "op": "settle"})
+		return true
+	}
+	tr.Emit(vRec{"ev": "settled", "resident": h.store.Len(), "errs": sec.errCount.Load()})
+	tr.Emit(vRec{"ev": "end", "stuck": 0, "skipped": 0})
+	return false
+}
+
 func TestVerif_Hybrid(t *testing.T) {
 	out := vOutDir(t)
 	vStoreMu.Lock()
@@ -308,6 +440,11 @@ func TestVerif_Hybrid(t *testing.T) {
 		if vHybridRun(tr, fmt.Sprintf("hy%d", i), int64(i)) {
 			hangs++
 			break
+		}
+	}
+	for i := 0; i < 2+n/10 && hangs == 0; i++ {
+		if vHybridLateJoin(tr, fmt.Sprintf("hylate%d", i), int64(i)) {
+			hangs++
 		}
 	}
 	vSummary(out, "hybrid.json", map[string]any{"runs": n, "hangs": hangs, "events": tr.n})
